@@ -29,21 +29,37 @@ Rust function (file under /repo/router/src/matching unless said otherwise) ↦ m
   non-empty, splat takes the rest) ↦ `tokMatch`, `flatMatchStrict`, `flatMatch` (= one trailing `/`
   of the path insignificant)
 
-The code is modelled as it is, defects included (a static segment stops when its own characters
-run out; param segments swallow one non-`/` character; byte slices inside a multi-byte character;
-the optional-parent fallback with its `unwrap`).
+The code is modelled as it is, remaining defects included (the optional-parent fallback, the
+prefix-only back-off of optionals, nested tuples counted as one optional field, `"/"` parents).
 
-`Seg.test`, `passFields`, `matchNested`, `matchChildren`, `stripBase`, `matchRoute` take a flag `k`:
-`k = false` is the Rust code; `k = true` is the *segment-aligned variant* (an atom is only tested at
-the end of the path or in front of a `/`; the base is one aligned static prefix).  The variant exists
-only to state the decidable input class `SegmentAligned d path := matchRoute false d path =
-matchRoute true d path`.  The last section (`judge`, `Kind`, `Class`, `classify`) is the property's
+`Seg.test`, `passFields`, `matchNested`, `matchChildren`, `stripBase`, `matchRoute` take a version
+`k : Ver`: `.cur` is the Rust code as it is now (after the `fix:` commits fix-c14-1..4: static
+segments end at a segment boundary, param segments no longer swallow a character, the base matches
+whole segments, the optional fallback no longer unwraps); `.old` is the code before these repairs (kept
+for the regression witnesses); `.aligned` is the *segment-aligned variant* of `.cur` (an atom is only
+tested at the end of the path or in front of a `/`; the base is one aligned static prefix).  That
+variant exists only to state the decidable input class `SegmentAligned d path := matchRoute .cur d
+path = matchRoute .aligned d path`.  The last section (`judge`, `Kind`, `Class`, `classify`) is the property's
 oracle and the known-finding classes, shared by the driver and the theorems.
 -/
 namespace Leptos.Router
 
 abbrev Path := List Char
 abbrev Params := List (List Char × List Char)
+
+/-- which code is modelled: `old` = the router before the `fix:` commits fix-c14-1..4 (kept for the
+regression witnesses), `cur` = the code as it is now, `aligned` = `cur` with every atom tested only at a
+segment boundary (used to state the input class `SegmentAligned`) -/
+inductive Ver where
+  | old
+  | cur
+  | aligned
+  deriving Repr, DecidableEq
+
+/-- the four repairs are in (`cur`, `aligned`) -/
+def Ver.fixed : Ver → Bool
+  | .old => false
+  | _ => true
 
 /-- outcome of a Rust call that returns `Option` and may panic -/
 inductive Out (α : Type) where
@@ -86,24 +102,28 @@ def sliceBytes (p : Path) (a b : Nat) : Option Path :=
 /-! ## segments -/
 
 /-- the `for char in test` loop of `StaticSegment::test` followed by `this.next().is_some()`;
-`none` = `return None`, `some (has_matched, matched_len)` otherwise -/
-def staticLoop : (this test : Path) → Bool → Nat → Option (Bool × Nat)
+`none` = `return None`, `some (has_matched, matched_len)` otherwise.  `strict` (fix-c14-1): when the
+segment's text is used up and the path goes on with a character other than `/`, no match. -/
+def staticLoop (strict : Bool) : (this test : Path) → Bool → Nat → Option (Bool × Nat)
   | this, [], hm, ml => if this.isEmpty then some (hm, ml) else none
-  | [], _ :: _, hm, ml => some (hm, ml)
+  | [], c :: _, hm, ml => if strict ∧ c ≠ '/' then none else some (hm, ml)
   | n :: this, c :: test, _, ml =>
     if c = '/' then none
-    else if c = n then staticLoop this test true (ml + c.utf8Size)
+    else if c = n then staticLoop strict this test true (ml + c.utf8Size)
     else none
 
-def staticTest (s : Path) (path : Path) : Out PM :=
+/-- `fixed = false`: before fix-c14-1 (the loop just stopped when the segment's text ran out);
+`""` and `"/"` have no text of their own and are exempt from the boundary check -/
+def staticTest (fixed : Bool) (s : Path) (path : Path) : Out PM :=
   let hm0 := s.isEmpty || s == ['/']
+  let strict := fixed && !hm0
   let r :=
     match path with
     | c :: t =>
       if c = '/' then
-        staticLoop (if s.head? = some '/' ∨ s.isEmpty then s.tail else s) t hm0 (if s.isEmpty then 0 else 1)
-      else staticLoop s path hm0 0
-    | [] => staticLoop s path hm0 0
+        staticLoop strict (if s.head? = some '/' ∨ s.isEmpty then s.tail else s) t hm0 (if s.isEmpty then 0 else 1)
+      else staticLoop strict s path hm0 0
+    | [] => staticLoop strict s path hm0 0
   match r with
   | none => .none
   | some (hm, ml) =>
@@ -116,26 +136,30 @@ def scanSeg : Path → Nat
   | [] => 0
   | c :: cs => if c = '/' then 0 else c.utf8Size + scanSeg cs
 
-/-- `(matched_len, param_offset, param_len)` of Param/OptionalParam: the first character is
-consumed by `test.next()` whatever it is, and only counted when it is `/` -/
-def paramScan : Path → Nat × Nat × Nat
+/-- `(matched_len, param_offset, param_len)` of Param/OptionalParam.  Before fix-c14-2
+(`fixed = false`) the first character was consumed by `test.next()` whatever it was and only counted
+when it was `/`; now it is only consumed when it is `/` (`peek`). -/
+def paramScan (fixed : Bool) : Path → Nat × Nat × Nat
   | [] => (0, 0, 0)
-  | c :: rest => if c = '/' then (1 + scanSeg rest, 1, scanSeg rest) else (scanSeg rest, 0, scanSeg rest)
+  | c :: rest =>
+    if c = '/' then (1 + scanSeg rest, 1, scanSeg rest)
+    else if fixed then (scanSeg (c :: rest), 0, scanSeg (c :: rest))
+    else (scanSeg rest, 0, scanSeg rest)
 
 def startsSlash : Path → Bool
   | c :: _ => c = '/'
   | [] => false
 
-def paramTest (name : List Char) (path : Path) : Out PM :=
-  let (ml, off, pl) := paramScan path
+def paramTest (fixed : Bool) (name : List Char) (path : Path) : Out PM :=
+  let (ml, off, pl) := paramScan fixed path
   if ml = 0 ∨ (ml = 1 ∧ startsSlash path) then .none
   else
     match splitBytes path ml, sliceBytes path off (pl + off) with
     | some (m, r), some v => .some ⟨m, r, [(name, v)]⟩
     | _, _ => .panic
 
-def optTest (name : List Char) (path : Path) : Out PM :=
-  let (ml0, off, pl) := paramScan path
+def optTest (fixed : Bool) (name : List Char) (path : Path) : Out PM :=
+  let (ml0, off, pl) := paramScan fixed path
   let ml := if ml0 = 1 ∧ startsSlash path then 0 else ml0
   match splitBytes path ml with
   | none => .panic
@@ -146,12 +170,15 @@ def optTest (name : List Char) (path : Path) : Out PM :=
       | none => .panic
     else .some ⟨m, r, []⟩
 
-def splatScan : Path → Nat × Nat × Nat
+def splatScan (fixed : Bool) : Path → Nat × Nat × Nat
   | [] => (0, 0, 0)
-  | c :: rest => if c = '/' then (1 + bytes rest, 1, bytes rest) else (bytes rest, 0, bytes rest)
+  | c :: rest =>
+    if c = '/' then (1 + bytes rest, 1, bytes rest)
+    else if fixed then (bytes (c :: rest), 0, bytes (c :: rest))
+    else (bytes rest, 0, bytes rest)
 
-def splatTest (name : List Char) (path : Path) : Out PM :=
-  let (ml, off, pl) := splatScan path
+def splatTest (fixed : Bool) (name : List Char) (path : Path) : Out PM :=
+  let (ml, off, pl) := splatScan fixed path
   match splitBytes path ml, sliceBytes path off (pl + off) with
   | some (m, r), some v => .some ⟨m, r, [(name, v)]⟩
   | _, _ => .panic
@@ -200,18 +227,18 @@ def backoff (f : Nat → Pass) : Nat → Pass
     | .retry => backoff f n
     | r => r
 
-/-- `true` when a segment test may start here in the *segment-aligned* variant of the router
-(`k = true`): at the end of the path or in front of a `/`.  The real code is `k = false`. -/
-def startOk (k : Bool) (path : Path) : Bool := !k || path.isEmpty || startsSlash path
+/-- `true` when a segment test may start here: always, except in the *segment-aligned* variant
+(`k = .aligned`): there only at the end of the path or in front of a `/`. -/
+def startOk (k : Ver) (path : Path) : Bool := k != .aligned || path.isEmpty || startsSlash path
 
 mutual
-/-- `PossibleRouteMatch::test`.  `k = false`: the code as it is.  `k = true`: the segment-aligned
-variant used to *classify* inputs (`SegmentAligned`): an atom is only tested at a segment boundary. -/
-def Seg.test (k : Bool) : Seg → Path → Out PM
-  | .st s, path => if startOk k path then staticTest s path else .none
-  | .param n, path => if startOk k path then paramTest n path else .none
-  | .opt n, path => if startOk k path then optTest n path else .none
-  | .splat n, path => if startOk k path then splatTest n path else .none
+/-- `PossibleRouteMatch::test`.  `k = .cur`: the code as it is.  `k = .old`: before the repairs.
+`k = .aligned`: the segment-aligned variant used to *classify* inputs (`SegmentAligned`). -/
+def Seg.test (k : Ver) : Seg → Path → Out PM
+  | .st s, path => if startOk k path then staticTest k.fixed s path else .none
+  | .param n, path => if startOk k path then paramTest k.fixed n path else .none
+  | .opt n, path => if startOk k path then optTest k.fixed n path else .none
+  | .splat n, path => if startOk k path then splatTest k.fixed n path else .none
   | .tup [], path => .some ⟨[], path, []⟩
   | .tup [a], path =>
     match a.test k path with
@@ -230,7 +257,7 @@ def Seg.test (k : Bool) : Seg → Path → Out PM
     | .panic => .panic
     | _ => .none
 /-- the body of the tuple loop from field `ty` on (`first = true` for `$first`) -/
-def passFields (k : Bool) : List Seg → Bool → Nat → Nat → Path → Nat → Params → Pass
+def passFields (k : Ver) : List Seg → Bool → Nat → Nat → Path → Nat → Params → Pass
   | [], _, _, _, r, ml, p => .done r ml p
   | ty :: tys, first, inc, nth, r, ml, p =>
     let nth' := if ty.optional then nth + 1 else nth
@@ -311,7 +338,7 @@ def innerMatched (m : NMatch) : Path :=
 
 mutual
 /-- `NestedRoute::match_nested`; `pos` = index of this route among its siblings -/
-def matchNested (k : Bool) : Route → Nat → Path → NOut
+def matchNested (k : Ver) : Route → Nat → Path → NOut
   | .mk segs children, pos, path =>
     match segs.test k path with
     | .panic => .panic
@@ -330,12 +357,14 @@ def matchNested (k : Bool) : Route → Nat → Path → NOut
             | .none => .none
             | .some inner rem =>
               -- … and re-parse the parent's params on what is left in front
+              -- (`unwrap()` before fix-c14-4, `?` now)
               match segs.test k (trimEnd (innerMatched inner ++ rem) path) with
               | .some np => finish pos pm.matched np.params (some inner) rem
-              | _ => .panic
+              | .none => if k.fixed then .none else .panic
+              | .panic => .panic
           else .none
 /-- sibling containers: the first child whose `match_nested` succeeds wins -/
-def matchChildren (k : Bool) : List Route → Nat → Path → NOut
+def matchChildren (k : Ver) : List Route → Nat → Path → NOut
   | [], _, _ => .none
   | c :: cs, i, path =>
     match matchNested k c i path with
@@ -358,20 +387,32 @@ def stripPrefix : Path → Path → Option Path
   | _ :: _, [] => none
   | b :: bs, c :: cs => if b = c then stripPrefix bs cs else none
 
-/-- the base handling at the top of `RouteDefs::match_route` (`k = true`: the base is one static
-prefix that must end at a segment boundary, no slash trimming) -/
-def stripBase (k : Bool) (base : Option Path) (path : Path) : Option Path :=
+def dropOneSlash : Path → Path
+  | [] => []
+  | c :: cs => if c = '/' then cs else c :: cs
+
+/-- the base handling at the top of `RouteDefs::match_route`.  `.old`: all leading slashes of the
+path trimmed, any remainder accepted.  `.cur` (fix-c14-3): one leading slash, and a non-empty base must
+be followed by `/` or the end.  `.aligned`: the base is one static prefix ending at a boundary. -/
+def stripBase (k : Ver) (base : Option Path) (path : Path) : Option Path :=
   match base with
   | none => some path
   | some b =>
-    if k then
-      match stripPrefix b path with
-      | some r => if r.isEmpty || startsSlash r then some r else none
-      | none => none
-    else if startsSlash b then stripPrefix (dropSlashes b) (dropSlashes path) else stripPrefix b path
+    match k with
+    | .aligned =>
+      (match stripPrefix b path with
+       | some r => if r.isEmpty || startsSlash r then some r else none
+       | none => none)
+    | .old => if startsSlash b then stripPrefix (dropSlashes b) (dropSlashes path) else stripPrefix b path
+    | .cur =>
+      let b' := if startsSlash b then dropSlashes b else b
+      let p' := if startsSlash b then dropOneSlash path else path
+      (match stripPrefix b' p' with
+       | some r => if b'.isEmpty || r.isEmpty || startsSlash r then some r else none
+       | none => none)
 
-/-- `RouteDefs::match_route` (`k = false`) -/
-def matchRoute (k : Bool) (d : Defs) (path : Path) : Out NMatch :=
+/-- `RouteDefs::match_route` (`k = .cur`) -/
+def matchRoute (k : Ver) (d : Defs) (path : Path) : Out NMatch :=
   match stripBase k d.base path with
   | none => .none
   | some p =>
@@ -610,7 +651,7 @@ def judge (d : Defs) (path : Path) (got : Out NMatch) : Option Kind :=
 /-! ## input classes (decidable; the known-finding classes are named after them) -/
 
 /-- `SegmentAligned`: on this input the router as it is behaves like its segment-aligned variant -/
-def SegmentAligned (d : Defs) (path : Path) : Prop := matchRoute false d path = matchRoute true d path
+def SegmentAligned (d : Defs) (path : Path) : Prop := matchRoute .cur d path = matchRoute .aligned d path
 
 instance (d : Defs) (path : Path) : Decidable (SegmentAligned d path) := by
   unfold SegmentAligned; exact inferInstance
@@ -672,25 +713,23 @@ def baseSlashes (d : Defs) (path : Path) : Bool :=
   | some b, c1 :: c2 :: _ => startsSlash b && c1 = '/' && c2 = '/'
   | _, _ => false
 
-/-- known-finding classes (the word after `fail` in the model driver's verdict) -/
+/-- known-finding classes (the word after `fail` in the model driver's verdict).  The classes
+`static-prefix`, `unaligned-panic`, `base-slashes`, `optional-fallback-unwrap` are gone with
+fix-c14-1..4: such a failure is now `unclassified`, i.e. a violation. -/
 inductive Class where
-  | unalignedPanic | staticPrefix | slashParent | baseSlashes
-  | optionalParent | optionalBackoffOrder | optionalFallbackParams | optionalFallbackUnwrap
+  | slashParent
+  | optionalParent | optionalBackoffOrder | optionalFallbackParams
   | optionalFallbackOvermatch | nestedOptionalTuple
   | unclassified (k : Kind)
   deriving Repr, DecidableEq
 
-/-- the class a failing verdict `kind` (= `judge d path (matchRoute false d path)`) is filed under;
+/-- the class a failing verdict `kind` (= `judge d path (matchRoute .cur d path)`) is filed under;
 first that applies.  Every class is a decidable predicate of the input `(d, path)`. -/
 def classify (d : Defs) (path : Path) (kind : Kind) : Class :=
   let aligned := decide (SegmentAligned d path)
-  let unaligned : Class :=
-    if baseSlashes d path then .baseSlashes else if hasSlashSeg d then .slashParent else .staticPrefix
+  let unaligned : Class := if hasSlashSeg d then .slashParent else .unclassified kind
   match kind with
-  | .panic =>
-    (match matchRoute true d path with
-     | .panic => if anyOptParent d.tops then .optionalFallbackUnwrap else .unclassified kind
-     | _ => .unalignedPanic)
+  | .panic => .unclassified kind
   | .routerOnly =>
     if !aligned then unaligned
     else if anyOptParent d.tops then .optionalFallbackOvermatch
